@@ -13,6 +13,7 @@ ENGINES = [
     {"name": "call graph", "path": "geolint/callgraph.py", "serves_properties": ["C02", "C05", "C11", "C12"], "kind_free_text": "callee resolution by names, annotation-derived receiver types with dynamic dispatch over subclasses, super(), properties, operators; CHA fallback"},
     {"name": "E4.V2/V3 + E8 variance and conjugation", "path": "geolint/variance.py", "serves_properties": ["C07", "C08"], "kind_free_text": "constant propagation of covariant=/tensor_rank= through super().__init__ chains along the MRO; diagram-edge discipline in __apply__; translation-conjugation idiom"},
     {"name": "E1 effect/alias engine", "path": "geolint/aliaseng.py", "serves_properties": ["C12", "C05"], "kind_free_text": "interprocedural abstract interpretation (geolint/av.py values: object identity, shallow-copy attribute sharing, ndarray memory with DEF/SOME/UNK certainty; geolint/npmodel.py numpy aliasing table; context per copy= flag; summaries to a fixpoint) with a public-boundary layer geolint/purity.py"},
+    {"name": "E5 homogeneity typing", "path": "geolint/homog.py", "serves_properties": ["C03", "C17", "C09", "C11"], "kind_free_text": "dimensional-analysis type system: abstract interpretation with path enumeration, degree maps per argument symbol (geolint/hv.py), sinks = order/sign decisions, equalities, numeric returns, point constructions, affine weights"},
     {"name": "mutation self-test", "path": "geolint/selftest.py", "serves_properties": [], "kind_free_text": "in-memory textual variants of the current tree: breaking variants must be reported with the named rule, twins must be silent"},
     {"name": "E9 kind dispatch", "path": "geolint/dispatch.py", "serves_properties": ["C09"], "kind_free_text": "decision-list evaluation of isinstance dispatch over all ordered pairs of concrete kinds with static class hierarchy; reduction graph, cycles, documented pairs, kind-blind equality short-cut"},
 ]
@@ -48,8 +49,8 @@ CHECKS = [
     },
     {
         "id": "C09", "engine": "E9 kind dispatch", "design_ref": "4 (E9), 5 C09",
-        "technique": "abstract evaluation of the isinstance decision list of dist over all ordered pairs of concrete kinds; recursion followed through annotation-derived argument types; cycle detection",
-        "text": "Dispatch clauses of C09: over all ordered pairs of concrete kinds (361 today) the reduction of dist terminates, every kind pair C09 documents reaches a base formula in both argument orders (no TypeError branch, no cycle), and the == short-cut cannot fire for objects of different kinds while __eq__ is kind-blind. Exhaustive over the finite kind lattice. The values of the distance/angle formulas, branch cuts and invariance under isometries are NOT decided.",
+        "technique": "abstract evaluation of the isinstance decision list of dist over all ordered pairs of concrete kinds; recursion followed through annotation-derived argument types; cycle detection; homogeneity-degree typing of the distance/angle formulas",
+        "text": "Homogeneity clause: the bracket formula behind dist and the value returned by angle have degree 0 in every argument's raw coordinates (E5). Dispatch clauses of C09: over all ordered pairs of concrete kinds (361 today) the reduction of dist terminates, every kind pair C09 documents reaches a base formula in both argument orders (no TypeError branch, no cycle), and the == short-cut cannot fire for objects of different kinds while __eq__ is kind-blind. Exhaustive over the finite kind lattice. The values of the distance/angle formulas, branch cuts and invariance under isometries are NOT decided.",
         "note": "trusts return annotations of project/base_point/vertices/edges/faces to type the arguments of recursive calls; unresolvable arguments give UNDECIDED",
     },
     {
@@ -99,5 +100,17 @@ CHECKS = [
         "technique": "whole-program interprocedural alias and effect analysis (abstract interpretation over the AST, summaries to a fixpoint over the call graph, context-sensitive in the copy= flag)",
         "text": "C12 is an effect property and is decided as such: for every function of the package every in-place write construct (item/augmented assignment, out=, in-place ndarray methods, container mutators, attribute rebinding, global/class-attribute stores) is traced to the memory or object it may hit; it is a violation when at a public entry point the target is still an argument, self, a cached attribute (_plane/_line), a module constant (I, J, infty, ...), a shared default-argument object or a class-level cache, for every input (DEF) or for an ordinary input (SOME, e.g. np.asarray(x) aliases an ndarray x). Sound up to UNDECIDED sites (listed in evidence; 0 today) and the numpy aliasing table.",
         "note": "trusts the numpy 1.26 aliasing table (validated with np.shares_memory) and the sanctioned-mutator table; path-insensitive between alias condition and write condition",
+    },
+    {
+        "id": "C03", "engine": "E5 homogeneity typing", "design_ref": "4 (E5), 5 C03",
+        "technique": "homogeneity-degree type system (abstract interpretation over the AST with path enumeration and interprocedural re-analysis); AST rule on the resolved __eq__ of every projective class",
+        "text": "For real non-zero scale factors and finite polytope vertices: every order/sign decision, equality/isclose, numeric return of a metric or measure function and point construction in the package is typed with the degree by which it scales when an argument's homogeneous coordinates are rescaled; a sink is PROVEN when both sides scale by the same positive factor (or it is a zero test), a VIOLATION when the degrees are definite and differ or carry a sign, UNDECIDED when the expression leaves the vocabulary (inhomogeneous sums, basis_matrix/null_space of raw data). == of every concrete projective class resolves to the scalar-multiple test. Quantifies over all representatives symbolically, which no test input built with Point(x, y) can. Magnitude effects of absolute tolerances, is_multiple itself and complex scale factors are NOT decided.",
+        "note": "assumes package primitives (join, meet, project, base_point, ...) return some representative of a representative-independent object; numpy operator degrees as tabulated in geolint/homog.py",
+    },
+    {
+        "id": "C17", "engine": "E5 homogeneity typing", "design_ref": "4 (E5 affine facet), 5 C17",
+        "technique": "homogeneity-degree typing of the measure-returning members of the polytope classes plus affine-weight tracking of dehomogenised vertex coordinates",
+        "text": "Two necessary conditions of C17's invariance clauses: every measure returned by a polytope class is computed from dehomogenised (degree-0) coordinates, and every point built from vertex coordinates (center, centroid) is an affine combination of total weight 1 (or a vector of weight 0), otherwise it is not equivariant under translations - which the suite cannot see because its shapes sit at the origin. The closed-form values themselves, the roll/flip logic of __eq__ and constructive results (midpoint, circumcenter) are NOT decided.",
+        "note": "measures that reach raw data only through sums over different vertices end in TOP and are UNDECIDED (documented blind spot, see self-test)",
     },
 ]
